@@ -242,6 +242,85 @@ def _query_call(fn: Fn, c: ast.Call, ev: str) -> bool:
     return False
 
 
+def _query_site(x: ast.AST) -> bool:
+    """A mention of one of the three public graph queries: `<e>.get_dependencies`, or its name as a string (getattr dispatch)."""
+    return (isinstance(x, ast.Attribute) and isinstance(x.ctx, ast.Load) and x.attr in QUERIES) or (isinstance(x, ast.Constant) and isinstance(x.value, str) and x.value in QUERIES)
+
+
+def _no_regex_guard(fn: Fn, prov: Provenance, test: ast.AST, value: bool, accessors: dict[str, set[str]]) -> set[str] | None:
+    """The sides of the requirement that hold no regex filter when `test` evaluates to `value`:
+    `any(f.identifier_is_regex for f in <side>)` false, `[f for f in <side> if f.identifier_is_regex]` empty,
+    `all(not f.identifier_is_regex for f in <side>)` true (through locals).  None if the test says nothing of the kind."""
+
+    def sides_of(e: ast.AST) -> set[str]:
+        orig = getattr(e, "_orig", (None, e))[1]
+        tags = prov.of(orig) | prov.of(e)
+        return set().union(*[accessors.get(t[4:], set()) for t in tags if t.startswith("acc:")]) if any(t.startswith("acc:") for t in tags) else set()
+
+    def comp_over(g: ast.AST, negated: bool) -> set[str]:
+        """comprehension `<P(x)> for x in E` / `x for x in E if P(x)`"""
+        if not isinstance(g, (ast.GeneratorExp, ast.ListComp, ast.SetComp)) or len(g.generators) != 1 or not isinstance(g.generators[0].target, ast.Name):
+            return set()
+        gen = g.generators[0]
+        var = gen.target.id
+        if gen.ifs:
+            lits = flatten([(c, True) for c in gen.ifs])
+            if negated or len(lits) != 1 or not (_is_regex_flag(lits[0][0], var) and lits[0][1]):
+                return set()
+        else:
+            lits = flatten([(g.elt, True)])
+            if len(lits) != 1 or not _is_regex_flag(lits[0][0], var) or lits[0][1] == negated:
+                return set()
+        return sides_of(gen.iter)
+
+    out: set[str] = set()
+    for lit, pol in flatten([(test, value)]):
+        e = fn.expand(lit) if parent(lit) is not None else lit
+        for x, p in flatten([(e, pol)]):
+            if isinstance(x, ast.Call) and isinstance(x.func, ast.Name) and len(x.args) == 1 and not x.keywords:
+                if x.func.id == "any" and not p:
+                    out |= comp_over(x.args[0], False)
+                elif x.func.id == "all" and p:
+                    out |= comp_over(x.args[0], True)
+            elif isinstance(x, (ast.ListComp, ast.SetComp)) and not p and x.generators and x.generators[0].ifs:
+                out |= comp_over(x, False)
+    return out or None
+
+
+def _same_spec_guard(fn: Fn, prov: Provenance, test: ast.AST, value: bool):
+    """Does `test == value` say that the two sides of the requirement are the same specification?
+    ("same", {sides}) for `<side a> == <side b>` on the filter objects themselves (order / duplicate-insensitive copies allowed);
+    ("projected", text) when only a projection of the filters is compared (`f.identifier for f in ...`): filters of different
+    kinds with the same text then count as the same; None when the test is something else."""
+
+    def raw_sides(e: ast.AST) -> set[str]:
+        orig = getattr(e, "_orig", (None, e))[1]
+        return {t[4:] for t in (prov.of(orig) | prov.of(e)) if t.startswith("raw:")}
+
+    def operand(e: ast.AST):
+        """(sides, projected?)"""
+        while isinstance(e, ast.Call) and isinstance(e.func, ast.Name) and e.func.id in ("list", "tuple", "set", "frozenset", "sorted") and len(e.args) == 1:
+            e = e.args[0]
+        if isinstance(e, (ast.GeneratorExp, ast.ListComp, ast.SetComp)) and len(e.generators) == 1 and not e.generators[0].ifs:
+            sd = raw_sides(e.generators[0].iter)
+            plain = isinstance(e.elt, ast.Name) and isinstance(e.generators[0].target, ast.Name) and e.elt.id == e.generators[0].target.id
+            return sd, not plain
+        if isinstance(e, ast.Call) and isinstance(e.func, ast.Name) and e.func.id == "map" and len(e.args) == 2:
+            return raw_sides(e.args[1]), True
+        return raw_sides(e), False
+
+    for lit, pol in flatten([(test, value)]):
+        e = fn.expand(lit) if parent(lit) is not None else lit
+        for x, p in flatten([(e, pol)]):
+            if isinstance(x, ast.Compare) and len(x.ops) == 1 and isinstance(x.ops[0], ast.Eq) and p:
+                (sa, pa), (sb, pb) = operand(x.left), operand(x.comparators[0])
+                if len(sa) == 1 and len(sb) == 1 and sa != sb:
+                    if pa or pb:
+                        return "projected", norm(x, 70)
+                    return "same", sa | sb
+    return None
+
+
 def _requirement_sides(repo: Repo) -> tuple[dict[str, set[str]], list[str]]:
     """accessor (property / field of ModuleRequirement) -> constructor parameters whose value it may return; the two
     filter-list constructor parameters."""
@@ -342,6 +421,7 @@ def run_r1(repo: Repo, res: Result) -> None:
     nq = 0
     concrete = [c for c in classes if not any(m.is_abstract and repo.lookup_method(c, m.name) is m for k in repo.mro(c) for m in k.methods.values())] or classes[:1]
     reported: dict[str, bool] = {}
+    judged_sites: set[int] = set()
 
     class Dedupe:
         """The same construct analysed for several concrete matcher classes is reported once per verdict."""
@@ -377,6 +457,12 @@ def run_r1(repo: Repo, res: Result) -> None:
         if not queries:
             raise AnalysisError(f"{entry.fq}: no graph query on `{ev}` found in the inlined view (rule would pass vacuously)")
         nq += len(queries)
+        for q in queries:
+            heads = [q.func]
+            if isinstance(q.func, ast.Name):
+                heads += [d.value for d in fn.reaching(q.func.id, q.func) if d.value is not None]
+            for h in heads:
+                judged_sites.update(id(getattr(x, "_src", (None, x))[1]) for x in ast.walk(h) if _query_site(x))
         # ---- provenance: which conversion (of which side) does a value derive from; `pre:` = state from before this evaluation
         ids = {id(c): i for i, c in enumerate(convs)}
 
@@ -389,9 +475,13 @@ def run_r1(repo: Repo, res: Result) -> None:
                     out |= {f"cside:{p}" for p in accessors.get(t[4:], ())}
             return out
 
-        def attr_tags(a: ast.Attribute):
+        def attr_tags(a: ast.Attribute, base=frozenset()):
             if a.attr in accessors and any(m[0] == "cls" and m[1].endswith(".ModuleRequirement") for m in _members(fn.type_of(a.value))):
-                return {f"acc:{a.attr}"}
+                out = {f"acc:{a.attr}"}
+                if base and not any(t.startswith(("conv:", "cside:")) for t in base):
+                    # read off a requirement that no conversion has touched: the filters as the user specified them
+                    out |= {f"raw:{sd}" for sd in accessors[a.attr]}
+                return out
             return None
 
         assumed: list[str] = []
@@ -420,19 +510,66 @@ def run_r1(repo: Repo, res: Result) -> None:
             cs, how = fn.callees(call)
             return how == "ctor" or (bool(cs) and all(f.name in ("__init__", "__post_init__") for f in cs))
 
-        prov = Provenance(fn, source, lambda a: _scalar_type(fn.type_of(a)), attr_tags, assume, passes)
+        def on_state(lits_: list) -> bool:
+            """Do the literals read state of the matcher that an evaluation can change (a field written outside the constructor,
+            or `self` handed to something that is not shown)?  Fields only the constructor writes are part of the rule."""
+            for l, _p in lits_:
+                for x in ast.walk(l):
+                    if isinstance(x, ast.Name) and x.id == "self":
+                        up = parent(x)
+                        if not (isinstance(up, ast.Attribute) and up.value is x and isinstance(up.ctx, ast.Load)):
+                            return True
+                        if isinstance(parent(up), ast.Call) and parent(up).func is up:
+                            return True  # a method that the view does not show
+                        if any(m.name != "__init__" for m, _n in _stores_of_field(repo, up.attr)):
+                            return True
+            return False
+
+        def make_prov(forced: dict[int, bool] | None = None) -> Provenance:
+            def assume2(st_if: ast.If, state: dict):
+                if forced and id(st_if) in forced:
+                    return forced[id(st_if)]
+                return assume(st_if, state)
+
+            return Provenance(fn, source, lambda a: _scalar_type(fn.type_of(a)), attr_tags, assume2, passes)
+
+        prov = make_prov()
+        # ---- conversions that run only under a condition on the *rule* (not on the matcher's state): `if <cond>: convert(side)
+        # else: <something else>`.  Each such branch is followed separately below; on the path without the conversion the side must
+        # still be its own specification (and provably free of regex filters), never something derived from elsewhere.
+        splits: dict[int, tuple[ast.If, bool, list[ast.Call]]] = {}
+        unsplit: list[ast.Call] = []
+        for c in convs:
+            lits_c = flatten(fn.conds_all(c))
+            if not lits_c or on_state(lits_c):
+                continue
+            st_c = stmt_of(c)
+            holder = next((a for a in ancestors(st_c) if isinstance(a, (ast.If, ast.For, ast.AsyncFor, ast.While, ast.Try, ast.With))), None)
+            if not isinstance(holder, ast.If) or fn.conds_all(c) != fn.conds_all(st_c):
+                unsplit.append(c)
+                continue
+            in_body = any(st_c is x or any(y is st_c for y in ast.walk(x)) for x in holder.body)
+            if id(holder) in splits and splits[id(holder)][1] != in_body:
+                continue  # both branches convert
+            splits.setdefault(id(holder), (holder, in_body, []))[2].append(c)
+        if len(splits) > 3:
+            unsplit += [c for _h, _b, cs in splits.values() for c in cs]
+            splits = {}
+        split_convs = {id(c) for _h, _b, cs in splits.values() for c in cs}
         # ---- (1) the conversion runs on every evaluation, before any query, against the evaluable being queried
         problems: list[tuple[str, ast.AST, bool]] = []  # (text, node, depends on matcher state)
         if not convs:
             problems.append(("the regex filters are never converted to module names before the graph is queried", queries[0], True))
         for c in convs:
+            if id(c) in split_convs:
+                continue  # followed branch by branch below
             lits = flatten(fn.conds_all(c))
+            state = on_state(lits)
             if lits:
-                state = any(isinstance(x, ast.Name) and x.id == "self" for l, _ in lits for x in ast.walk(l))
                 problems.append((f"the conversion `{norm(c, 60)}` only runs if `{' and '.join(('' if p else 'not ') + norm(l, 50) for l, p in lits)}`", c, state))
             for q in queries:
                 if not cfg.dominates(_always_run(fn, c), stmt_of(q)):
-                    problems.append((f"the query `{norm(q, 50)}` can be reached without the conversion `{norm(c, 50)}`", q, True))
+                    problems.append((f"the query `{norm(q, 50)}` can be reached without the conversion `{norm(c, 50)}`", q, state or not lits))
                     break
         for c in convs:
             arg = c.args[1] if len(c.args) > 1 else next((k.value for k in c.keywords if k.arg not in (None, "modules")), None)
@@ -456,6 +593,8 @@ def run_r1(repo: Repo, res: Result) -> None:
             res.add("C11.R1", key, False, f"{wrong_target[0][0]}: the regexes are resolved against another architecture than the one evaluated", where(view, wrong_target[0][1]), kind="dominance")
         elif not problems:
             res.add("C11.R1", key, True, "regexes are converted to module names before any graph query, unconditionally, against the evaluable being checked", where(view, view.node), kind="dominance")
+        elif other:
+            res.undecide("C11.R1", key, other[0][0] + " - a condition that is not about the matcher's own state; the path without the conversion could not be followed", where(view, other[0][1]))
         elif fresh and convs:
             res.add("C11.R1", key, True, f"the conversion depends on the matcher's state ({problems[0][0]}), but Rule.assert_applies creates a new matcher for every call, so every evaluation starts from the constructor state", where(view, problems[0][1]), kind="dominance")
         elif stateful:
@@ -463,94 +602,177 @@ def run_r1(repo: Repo, res: Result) -> None:
             res.add("C11.R1", key, False, f"{stateful[0][0]}{extra}: a stale or missing conversion is evaluated", where(view, stateful[0][1]), kind="dominance")
         else:
             res.undecide("C11.R1", key, other[0][0], where(view, other[0][1]))
-        # ---- (2) both sides are converted
-        conv_side: dict[int, set[str]] = {}
-        acc_text: dict[int, list[str]] = {}
-        for c in convs:
-            inp = c.args[0] if c.args else next((k.value for k in c.keywords), None)
-            accs = sorted(t[4:] for t in prov.of(inp) if t.startswith("acc:")) if inp is not None else []
-            acc_text[ids[id(c)]] = accs
-            conv_side[ids[id(c)]] = set().union(*[accessors.get(a, set()) for a in accs]) if accs else set()
-        covered = set().union(*conv_side.values()) if conv_side else set()
-        all_accs = sorted({a for v in acc_text.values() for a in v})
-        distinct = len(all_accs) >= min(2, len(sides))
-        ok = bool(convs) and set(sides) <= covered and distinct
-        if convs and any(not v for v in conv_side.values()):
-            res.undecide("C11.R1", base + "both sides converted", f"the input `{norm(convs[[i for i, v in conv_side.items() if not v][0]].args[0], 60) if convs[0].args else '?'}` of a conversion is not recognised as an accessor of the module requirement", where(view, convs[0]))
-        else:
-            res.add("C11.R1", base + "both sides converted", ok, "importers and importees are both converted against the evaluable being checked" if ok else f"the conversion covers {all_accs} only: a side ({', '.join(sorted(set(sides) - covered)) or 'one of ' + ', '.join(sides)}) keeps its regex filters or is converted twice", where(view, convs[0] if convs else view.node), kind="structural")
-        # ---- (3) the queries receive converted filters only
-        for q in queries:
-            args = [*q.args, *[k.value for k in q.keywords]]
-            bad = ""
-            unsure = ""
-            got: set[str] = set()
-            for a in args:
-                t = prov.of(a)
-                pre = sorted(x for x in t if x.startswith("pre:"))
-                got |= {x[6:] for x in t if x.startswith("cside:")}
-                flt = sorted(x for x in t if x.startswith("via:filter:"))
-                via = sorted(x for x in t if x.startswith("via:") and not x.startswith("via:filter:"))
-                if pre:
-                    bad = bad or f"`{norm(a, 60)}` is read from `{pre[0][4:]}` as it was before this evaluation's conversion (the un-converted or a stale requirement)"
-                elif not any(x.startswith("conv:") for x in t):
-                    bad = bad or f"`{norm(a, 60)}` does not come from the conversion"
-                elif flt:
-                    bad = bad or f"the converted filters are filtered (`{flt[0][11:]}`) before they reach `{norm(a, 60)}`: modules the regex matches are dropped from the rule"
-                elif via:
-                    unsure = unsure or f"the converted filters pass through `{via[0][4:]}` before they reach `{norm(a, 60)}` - not recognised as an unchanged hand-over"
-            if not bad and convs and not set(sides) <= got:
-                bad = f"only the conversion of {sorted(got)} reaches the query"
-            if unsure and not bad:
-                res.undecide("C11.R1", repo.key(view, stmt_of(q)) + f" [{norm(q.func, 80)}]", unsure, where(view, q))
-                continue
-            res.add("C11.R1", repo.key(view, stmt_of(q)) + f" [{norm(q.func, 80)}]", not bad, "queries the graph with the converted requirement" if not bad else (bad if "filtered" in bad else f"{bad}: regex filters reach a graph query"), where(view, q), kind="flow")
-        # ---- (4) consumers outside the view (detectors, message generators) read the converted requirement
-        seen: set[tuple[str, str]] = set()
-        for c in calls:
-            if not (isinstance(c.func, ast.Attribute) and isinstance(c.func.value, ast.Name) and c.func.value.id == "self"):
-                continue
-            roots = [f for f in fn.callees(c)[0] if f.cls in classes]
-            if not roots:
-                continue
-            for m in reachable_funcs(repo, roots, byname=False):
-                if m.cls not in classes:
+        # ---- every combination of the rule-dependent branches is followed on its own (no such branch: one pass, as written)
+        import itertools
+
+        spec_fields = {t for c in convs for t in (prov.of(c.args[0] if c.args else next((k.value for k in c.keywords), None)) if (c.args or c.keywords) else ()) if t.startswith("pre:")}
+        main_prov = prov
+        for combo in itertools.product((True, False), repeat=len(splits)):
+            forced = {hid: (in_body if run else not in_body) for (hid, (_h, in_body, _cs)), run in zip(splits.items(), combo)}
+            prov = make_prov(forced) if splits else main_prov
+            skipped_convs = {id(c) for (_hid, (_h, _b, cs)), run in zip(splits.items(), combo) if not run for c in cs}
+            active = [c for c in convs if id(c) not in skipped_convs]
+            raw_ok: set[str] = set()  # sides that may reach the queries as specified: the branch taken shows they hold no regex filter
+            raw_unsure: dict[str, str] = {}
+            raw_wrong: dict[str, str] = {}
+            alias_ok: dict[str, set[str]] = {}  # side -> the other side, when the branch taken shows both sides are the same specification
+            projected: dict[str, str] = {}
+            opaque: dict[str, str] = {}
+            where_skipped = ""
+            for (_hid, (h, in_body, cs)), run in zip(splits.items(), combo):
+                if run:
                     continue
-                for node in own_nodes(m.node):
-                    if not (isinstance(node, ast.Attribute) and isinstance(node.ctx, ast.Load) and isinstance(node.value, ast.Name) and node.value.id == "self"):
-                        continue
-                    if not _carrying(repo, T.expr(m, node)):
-                        continue
-                    up = parent(node)
-                    if isinstance(up, ast.Attribute) and _scalar_type(T.expr(m, up)):
-                        continue  # only a flag of the requirement is read
-                    t = prov.field_at(stmt_of(c), node.attr)
-                    pre = [x for x in t if x.startswith("pre:")]
+                where_skipped = where_skipped or f"when `{norm(h.test, 60)}` is {'false' if in_body else 'true'}"
+                for c in cs:
+                    inp_ = c.args[0] if c.args else next((k.value for k in c.keywords), None)
+                    sides_c = set().union(*[accessors.get(t[4:], set()) for t in main_prov.of(inp_) if t.startswith("acc:")]) if inp_ is not None else set()
+                    free = _no_regex_guard(fn, main_prov, h.test, not in_body, accessors)
+                    same = _same_spec_guard(fn, main_prov, h.test, not in_body)
+                    for sd in sides_c:
+                        if free is not None and sd in free:
+                            raw_ok.add(sd)
+                        elif free is not None:
+                            raw_wrong[sd] = f"{where_skipped} the {sd} reach the query as the user specified them, regex filters included: the condition only shows that the {', '.join(sorted(free))} hold no regex filter"
+                        else:
+                            raw_unsure[sd] = f"{where_skipped} the {sd} are not converted; the condition is not recognised as 'none of them is a regex filter'"
+                        if same is not None and same[0] == "same" and sd in same[1]:
+                            alias_ok[sd] = same[1] - {sd}
+                        elif same is not None and same[0] == "projected":
+                            projected[sd] = same[1]
+                        else:
+                            opaque[sd] = norm(h.test, 60)
+            tag = f" [{where_skipped}]" if where_skipped else ""
+
+            def excuse(t):  # noqa: ANN001
+                """(pre tags that count, does the value come from the conversion or from a regex-free specification, sides delivered)"""
+                acc_sides = {x[4:] for x in t if x.startswith("raw:")}
+                pre_ = sorted(x for x in t if x.startswith("pre:"))
+                raw_fine = bool(acc_sides) and acc_sides <= raw_ok and all(x in spec_fields for x in pre_)
+                if raw_fine:
+                    pre_ = []
+                got_ = {x[6:] for x in t if x.startswith("cside:")} | (acc_sides & raw_ok)
+                return pre_, raw_fine or any(x.startswith("conv:") for x in t), got_, acc_sides
+
+            # ---- (2) both sides are converted
+            conv_side: dict[int, set[str]] = {}
+            acc_text: dict[int, list[str]] = {}
+            for c in active:
+                inp = c.args[0] if c.args else next((k.value for k in c.keywords), None)
+                accs = sorted(t[4:] for t in prov.of(inp) if t.startswith("acc:")) if inp is not None else []
+                acc_text[ids[id(c)]] = accs
+                conv_side[ids[id(c)]] = set().union(*[accessors.get(a, set()) for a in accs]) if accs else set()
+            covered = set().union(*conv_side.values()) if conv_side else set()
+            all_accs = sorted({a for v in acc_text.values() for a in v})
+            distinct = len(all_accs) >= min(2, len(sides))
+            ok = bool(convs) and set(sides) <= (covered | raw_ok) and (distinct or bool(raw_ok))
+            if skipped_convs and not ok:
+                pass  # decided where the sides reach the queries (3)
+            elif convs and any(not v for v in conv_side.values()):
+                res.undecide("C11.R1", base + "both sides converted", f"the input `{norm(convs[[i for i, v in conv_side.items() if not v][0]].args[0], 60) if convs[0].args else '?'}` of a conversion is not recognised as an accessor of the module requirement", where(view, convs[0]))
+            else:
+                res.add("C11.R1", base + "both sides converted", ok, "importers and importees are both converted against the evaluable being checked" if ok else f"the conversion covers {all_accs} only: a side ({', '.join(sorted(set(sides) - covered)) or 'one of ' + ', '.join(sides)}) keeps its regex filters or is converted twice", where(view, convs[0] if convs else view.node), kind="structural")
+            # ---- (3) the queries receive converted filters only
+            for q in queries:
+                args = [*q.args, *[k.value for k in q.keywords]]
+                bad = ""
+                unsure = ""
+                got: set[str] = set()
+                raw_seen: set[str] = set()
+                for a in args:
+                    t = prov.of(a)
+                    pre, from_conv, got_a, acc_sides = excuse(t)
+                    got |= got_a
+                    raw_seen |= acc_sides
                     flt = sorted(x for x in t if x.startswith("via:filter:"))
-                    okr = not pre and not flt and any(x.startswith("conv:") for x in t)
-                    k = (m.fq, norm(stmt_of(node)) + node.attr)
-                    if k in seen and okr:
-                        continue
-                    seen.add(k)
-                    nq += 1
-                    shown = up if isinstance(up, ast.Attribute) else node
-                    res.add("C11.R1", repo.key(m, stmt_of(node)) + f" [{norm(shown, 80)}]", okr, "reads the converted requirement" if okr else f"{m.qualname} reads `{norm(shown)}`, which at the call `{norm(c, 50)}` is {'the un-converted (or a stale) requirement' if pre else ('the conversion result filtered by `' + flt[0][11:] + '`') if flt else 'not the result of the conversion'}: the detector / message generator does not judge the converted requirement", where(m, node), kind="flow")
-        # consumers constructed inside the view (their factory was inlined for this concrete class)
-        for c in calls:
-            cs_, how_ = fn.callees(c)
-            if not cs_ or not all(f.name in ("__init__", "__post_init__") and any(f.module.name == m or (m.endswith(".") and f.module.name.startswith(m)) for m in CONSUMER_MODULES) for f in cs_):
-                continue
-            for a in [*c.args, *[k.value for k in c.keywords]]:
-                if not _carrying(repo, fn.type_of(a)):
+                    via = sorted(x for x in t if x.startswith("via:") and not x.startswith("via:filter:"))
+                    if acc_sides & set(raw_wrong) and all(x in spec_fields for x in pre):
+                        bad = bad or raw_wrong[sorted(acc_sides & set(raw_wrong))[0]]
+                    elif acc_sides & set(raw_unsure) and all(x in spec_fields for x in pre):
+                        unsure = unsure or raw_unsure[sorted(acc_sides & set(raw_unsure))[0]]
+                    elif pre:
+                        bad = bad or f"`{norm(a, 60)}` is read from `{pre[0][4:]}` as it was before this evaluation's conversion (the un-converted or a stale requirement)"
+                    elif not from_conv:
+                        bad = bad or f"`{norm(a, 60)}` does not come from the conversion"
+                    elif flt:
+                        bad = bad or f"the converted filters are filtered (`{flt[0][11:]}`) before they reach `{norm(a, 60)}`: modules the regex matches are dropped from the rule"
+                    elif via:
+                        unsure = unsure or f"the converted filters pass through `{via[0][4:]}` before they reach `{norm(a, 60)}` - not recognised as an unchanged hand-over"
+                got |= {sd for sd, others in alias_ok.items() if others <= got}
+                if not bad and convs and not set(sides) <= got:
+                    missing = set(sides) - got
+                    if missing <= (raw_seen & set(raw_unsure)):
+                        unsure = unsure or raw_unsure[sorted(missing)[0]]
+                    elif skipped_convs and missing <= set(projected):
+                        bad = f"{where_skipped} the {', '.join(sorted(missing))} given to the query do not derive from the {', '.join(sorted(missing))} the user specified (only the conversion of {sorted(got)} reaches it), and `{projected[sorted(missing)[0]]}` compares a projection of the filters only: a regex filter and a name filter with the same text count as the same specification"
+                    elif skipped_convs and missing <= set(opaque) | set(projected):
+                        unsure = unsure or f"{where_skipped} the {', '.join(sorted(missing))} given to the query derive from the conversion of {sorted(got)} only; `{opaque.get(sorted(missing)[0], '')}` is not recognised as 'both sides are the same specification'"
+                    elif skipped_convs:
+                        bad = f"{where_skipped} the {', '.join(sorted(missing))} given to the query do not derive from the {', '.join(sorted(missing))} the user specified (only the conversion of {sorted(got)} reaches it)"
+                    else:
+                        bad = f"only the conversion of {sorted(got)} reaches the query"
+                if unsure and not bad:
+                    res.undecide("C11.R1", repo.key(view, stmt_of(q)) + f" [{norm(q.func, 80)}]", unsure, where(view, q))
                     continue
-                t = prov.of(a)
-                pre = sorted(x for x in t if x.startswith("pre:"))
-                flt = sorted(x for x in t if x.startswith("via:filter:"))
-                okr = not pre and not flt and any(x.startswith("conv:") for x in t)
-                nq += 1
-                res.add("C11.R1", repo.key(view, stmt_of(c)) + f" [{norm(a, 80)}]", okr, "is built from the converted requirement" if okr else f"`{norm(c, 60)}` receives `{norm(a, 50)}`, which is {'read from `' + pre[0][4:] + '` as it was before this evaluation (the un-converted or a stale requirement)' if pre else ('the conversion result filtered by `' + flt[0][11:] + '`') if flt else 'not the result of the conversion'}: the detector / message generator does not judge the converted requirement", where(view, c), kind="flow")
+                res.add("C11.R1", repo.key(view, stmt_of(q)) + f" [{norm(q.func, 80)}]" + (tag if bad else ""), not bad, "queries the graph with the converted requirement" if not bad else (bad if "filtered" in bad or "do not derive" in bad or "regex filters included" in bad else f"{bad}: regex filters reach a graph query"), where(view, q), kind="flow")
+            # ---- (4) consumers outside the view (detectors, message generators) read the converted requirement
+            seen: set[tuple[str, str]] = set()
+            for c in calls:
+                if not (isinstance(c.func, ast.Attribute) and isinstance(c.func.value, ast.Name) and c.func.value.id == "self"):
+                    continue
+                roots = [f for f in fn.callees(c)[0] if f.cls in classes]
+                if not roots:
+                    continue
+                for m in reachable_funcs(repo, roots, byname=False):
+                    if m.cls not in classes:
+                        continue
+                    for node in own_nodes(m.node):
+                        if not (isinstance(node, ast.Attribute) and isinstance(node.ctx, ast.Load) and isinstance(node.value, ast.Name) and node.value.id == "self"):
+                            continue
+                        if not _carrying(repo, T.expr(m, node)):
+                            continue
+                        up = parent(node)
+                        if isinstance(up, ast.Attribute) and _scalar_type(T.expr(m, up)):
+                            continue  # only a flag of the requirement is read
+                        t = prov.field_at(stmt_of(c), node.attr)
+                        pre, from_conv, _got, acc_sides = excuse(t)
+                        if acc_sides & set(raw_unsure):
+                            continue  # undecided where the same value reaches the queries
+                        flt = sorted(x for x in t if x.startswith("via:filter:"))
+                        okr = not pre and not flt and from_conv
+                        k = (m.fq, norm(stmt_of(node)) + node.attr)
+                        if k in seen and okr:
+                            continue
+                        seen.add(k)
+                        nq += 1
+                        shown = up if isinstance(up, ast.Attribute) else node
+                        res.add("C11.R1", repo.key(m, stmt_of(node)) + f" [{norm(shown, 80)}]", okr, "reads the converted requirement" if okr else f"{m.qualname} reads `{norm(shown)}`, which at the call `{norm(c, 50)}` is {'the un-converted (or a stale) requirement' if pre else ('the conversion result filtered by `' + flt[0][11:] + '`') if flt else 'not the result of the conversion'}: the detector / message generator does not judge the converted requirement", where(m, node), kind="flow")
+            # consumers constructed inside the view (their factory was inlined for this concrete class)
+            for c in calls:
+                cs_, how_ = fn.callees(c)
+                if not cs_ or not all(f.name in ("__init__", "__post_init__") and any(f.module.name == m or (m.endswith(".") and f.module.name.startswith(m)) for m in CONSUMER_MODULES) for f in cs_):
+                    continue
+                for a in [*c.args, *[k.value for k in c.keywords]]:
+                    if not _carrying(repo, fn.type_of(a)):
+                        continue
+                    t = prov.of(a)
+                    pre, from_conv, _got, acc_sides = excuse(t)
+                    if acc_sides & set(raw_unsure):
+                        continue  # undecided where the same value reaches the queries
+                    flt = sorted(x for x in t if x.startswith("via:filter:"))
+                    okr = not pre and not flt and from_conv
+                    nq += 1
+                    res.add("C11.R1", repo.key(view, stmt_of(c)) + f" [{norm(a, 80)}]", okr, "is built from the converted requirement" if okr else f"`{norm(c, 60)}` receives `{norm(a, 50)}`, which is {'read from `' + pre[0][4:] + '` as it was before this evaluation (the un-converted or a stale requirement)' if pre else ('the conversion result filtered by `' + flt[0][11:] + '`') if flt else 'not the result of the conversion'}: the detector / message generator does not judge the converted requirement", where(view, c), kind="flow")
+        prov = main_prov
         if assumed:
             res.observe(f"C11.R1: evaluated under the constructor state of a freshly created matcher ({', '.join(assumed)})")
+    # every graph query that the matcher can reach was seen (and judged) in one of the views: a query in a helper that the views do
+    # not show (a callable handed around, a call the resolver cannot follow) would otherwise pass unexamined
+    for g in reachable_funcs(repo, entries, byname=True):
+        if g.module.name.startswith("pytestarch.eval_structure"):
+            continue
+        for x in own_nodes(g.node):
+            if _query_site(x) and id(x) not in judged_sites:
+                res.undecide("C11.R1", repo.key(g, stmt_of(x)) + " [graph query outside the view]", f"{g.qualname} queries the graph (`{norm(x, 70)}`) but the call is not part of the inlined view of the matcher entry point: its arguments cannot be traced to the conversion", where(g, x))
     res_.floor("C11.R1", 1, nq)  # at least one graph query was found and judged (a view without queries is an ANALYSIS-ERROR above)
 
 
